@@ -10,7 +10,7 @@ Table format (contracts/loops.tbl):
     @ ...
 
 The clause text is inserted on the SAME line directly after the closing ')'
-of the loop head (for `do` loops: after the ')' of the trailing `while`),
+of the loop head (for `do` loops: directly after the `do` keyword),
 wrapped in marker comments, so line numbers of the real file are preserved
 and stripping  ` /*@V{*/ ... /*@V}*/`  gives back the repository file byte for
 byte (checked here on every run).
@@ -195,8 +195,9 @@ def loop_heads(toks, lo, hi):
             if not (toks[w][0] == "id" and toks[w][1] == "while"):
                 raise AnnotateError("do without trailing while")
             do_tail_whiles.add(w)
-            close = match_forward(toks, w + 1, "(", ")")
-            loops.append((k, "do", toks[close][3]))
+            # goto-cc 6.11 accepts the clauses of a do loop only directly
+            # after the `do` keyword:  do <clauses> { body } while (cond);
+            loops.append((k, "do", toks[k][3]))
         k += 1
     k = lo
     while k < hi:
